@@ -85,7 +85,12 @@ func ScramSHA256PlusAuth(username, password string, tlsConnState *tls.Connection
 }
 
 // Start initializes the SCRAM authentication process and returns the selected algorithm, nil data, and no error.
+//
+// An Auth value may serve more than one connection. Whatever an earlier exchange has left behind (nonce,
+// salted password, auth message) must not be taken for state of the exchange that starts here, otherwise
+// a server could answer with the signature of that earlier exchange.
 func (a *scramAuth) Start(_ *ServerInfo) (string, []byte, error) {
+	a.reset()
 	return a.algorithm, nil, nil
 }
 
